@@ -18,6 +18,7 @@ from sympy import Symbol, cse
 from sympy.logic.boolalg import And, Boolean, Not, Or, Xor, simplify_logic
 
 from ..ast2logic import BoolExpList
+from ..ast2logic.typing import is_return_symbol
 from . import SympyTransformer
 from .exp_transformers import (
     remove_Implies,
@@ -46,7 +47,7 @@ def merge_expressions(exps: BoolExpList) -> BoolExpList:
         e = e.xreplace(emap)
         e = custom_simplify_logic(e)
 
-        if s.name[0:4] != "_ret":
+        if not is_return_symbol(s.name):
             emap[s] = e
         else:
             n_exps.append((s, e))
